@@ -16,7 +16,7 @@ RULE = ('cases: add_/sub_/mul_/div_/pow_/gt_/ge_/lt_/le_ on 2 operands, each a f
         '14-day grid (random, nested, disjoint, blocks, empty), NaN and 0 anywhere; every index policy in {ij, oj} (also lj, rj), '
         'method in {None, ffill, bfill}, column policy in {ij, oj} (also lj, rj). Values are small integers chosen so that every '
         'result is an exact integer in floating point (dividends are multiples of 64, divisors 0 or +-1, 2, 4; exponents 0..3; '
-        'df_mean operands multiples of 12), so float and exact integer arithmetic agree; a non-integer result is observed as its '
+        'df_mean operands multiples of 12), so float and exact integer arithmetic agree; +-inf cells and scalars (carried as +-10^9) in 30% of the add/sub/mul/div/comparison/min/max cases, where the IEEE result needs no rounding; a non-integer result is observed as its '
         'float.hex() and can never match the model. Observed: kind, index, columns, every cell; compared in Coq with the model '
         'M_tsops on the alignment model M_align; the oracle recomputes the result from the statement (Python sets + Fractions). '
         'Varied in kind: b omitted, f(a, b) call form, scalar types int / float / np.float64 / np.int64, int-dtype operands, spellings, long / integer column names, 1 us .. 1 day ticks and 1900 / 2250 origins, 120-250-row series; df_std is checked by the oracle only (1e-9). non-trivial = at least two timeseries operands with different, overlapping indices, or a zero divisor; distinct by input')
@@ -145,6 +145,17 @@ def cell_op(op, x, y):
         return int({'gt': x > y, 'ge': x >= y, 'lt': x < y, 'le': x <= y}[op])
     if x is None or y is None:
         return None
+    if op in ('add', 'sub', 'mul', 'div') and (abs(x) == c03.INF or abs(y) == c03.INF):
+        # +-inf operand: the IEEE result, which needs no rounding here (inf+finite, inf-inf = NaN, inf*0 = NaN, finite/inf = 0,
+        # inf/finite = +-inf); ONLY a zero denominator is turned into NaN
+        if op == 'div' and y == 0:
+            return None
+        fx, fy = c03.fl(x), c03.fl(y)
+        try:
+            r = fx + fy if op == 'add' else fx - fy if op == 'sub' else fx * fy if op == 'mul' else fx / fy
+        except ZeroDivisionError:
+            return None
+        return None if r != r else c03.INF if r == math.inf else -c03.INF if r == -math.inf else Fraction(r)
     if op == 'add': return x + y
     if op == 'sub': return x - y
     if op == 'mul': return x * y
@@ -512,7 +523,23 @@ def gen_cases(rng, tier):
         n = rng.choice([1, 2, 3, 4])
         xs = gen_operands(rng, n, ['int'] * n, rng.choice(['none', 'none', 'all']))
         cases.append({'kind': 'agg', 'agg': 'std', 'xs': xs, 'how': rng.choice(['oj', 'oj', 'ij']), 'method': None, 'columns': 'oj', 'nomodel': True})
-    return [decorate(rng, c) for c in cases]
+    return [decorate(rng, add_inf(rng, c)) for c in cases]
+
+def add_inf(rng, case):
+    """+-inf cells and scalars for the operations whose IEEE result is determined without rounding"""
+    ok = (case['kind'] == 'op' and case['op'] in ('add', 'sub', 'mul', 'div', 'gt', 'ge', 'lt', 'le')) or case['kind'] == 'minmax'
+    if not ok or rng.random() > 0.3:
+        return case
+    c = json.loads(json.dumps(case))
+    pick = lambda v: (rng.choice([c03.INF, -c03.INF]) if (v is not None and rng.random() < 0.12) else v)
+    for l in operand_leaves(c):
+        if 'S' in l:
+            l['S'] = [[t, pick(v)] for t, v in l['S']]
+        elif 'F' in l:
+            l['F']['rows'] = [[pick(v) for v in r] for r in l['F']['rows']]
+        elif 'N' in l and rng.random() < 0.3:
+            l['N'] = rng.choice([c03.INF, -c03.INF])
+    return c
 
 def decorate(rng, case):
     """kinds of input the plain streams do not reach: tick length / origin, spellings, scalar types, int dtype, names, a/b split"""
